@@ -329,6 +329,16 @@ def run_case_symbolic(case, str_constants=None):
 _CASES = []
 
 
+def _worker_init():
+    """workers die with their parent (a check killed by `timeout` must not leave solver processes behind)"""
+    try:
+        import ctypes
+        import signal
+        ctypes.CDLL("libc.so.6").prctl(1, signal.SIGKILL)       # PR_SET_PDEATHSIG
+    except Exception:     # noqa
+        pass
+
+
 def _worker(i):
     case, consts = _CASES[i]
     try:
@@ -418,7 +428,7 @@ def run_property(mod, tier, jobs=None, seed=0):
     jobs = jobs or min(len(cases), int(os.environ.get("VERIF_JOBS", "14")))
     if jobs > 1 and len(cases) > 1:
         ctxm = multiprocessing.get_context("fork")
-        with ctxm.Pool(jobs) as pool:
+        with ctxm.Pool(jobs, initializer=_worker_init) as pool:
             results = pool.map(_worker, range(len(cases)), chunksize=1)
     else:
         results = [_worker(i) for i in range(len(cases))]
